@@ -509,7 +509,7 @@ def sess_describe(t, pos, tag):
     sub = c.get("sub")
     ev = t[pos] if pos < len(t) else {}
     cfgs = {"uploadq": "cap=%s fast=%s" % (c.get("cap"), c.get("fast")),
-            "pipeline": "reqq=%s maxout=%s fast=%s" % (c.get("reqq"), c.get("maxout"), c.get("fast")),
+            "pipeline": "reqq=%s maxout=%s fast=%s rej=%s" % (c.get("reqq"), c.get("maxout"), c.get("fast"), c.get("rej")),
             "ram": "limit=%s plens=%s" % (c.get("limit"), c.get("plens")),
             "webseed": "k=%s caps=%s capd=%s variant=%s" % (c.get("k"), c.get("caps"), c.get("capd"), c.get("variant")),
             "rate": "kind=%s rate=%s" % (c.get("kind"), c.get("rate")),
@@ -577,13 +577,20 @@ def check_sess(ctx, drv, launched=None):
         for mod, cfg in (("LimitsSessUQ", "MC_LimitsSessUQ.cfg"), ("LimitsSessPL", "MC_LimitsSessPL.cfg"), ("LimitsSessWS", "MC_LimitsSessWS.cfg")):
             mc(ctx, mod, cfg, timeout=600)
         if not q:
-            for mod, cfg in (("LimitsSessUQ", "MC_LimitsSessUQ_zero.cfg"), ("LimitsSessPL", "MC_LimitsSessPL_reqq.cfg"), ("LimitsSessWS", "MC_LimitsSessWS_zero.cfg")):
+            for mod, cfg in (("LimitsSessUQ", "MC_LimitsSessUQ_zero.cfg"), ("LimitsSessPL", "MC_LimitsSessPL_reqq.cfg"), ("LimitsSessPL", "MC_LimitsSessPL_q3.cfg"),
+                             ("LimitsSessPL", "MC_LimitsSessPL_hostile_guard.cfg"), ("LimitsSessWS", "MC_LimitsSessWS_zero.cfg")):
                 mc(ctx, mod, cfg, timeout=600)
             for mod, cfg, key in (("LimitsSessUQ", "MC_LimitsSessUQ_mut.cfg", "sess_model_uploadq_off_by_one"),
                                   ("LimitsSessUQ", "MC_LimitsSessUQ_cancelrej.cfg", "sess_model_uploadq_cancel_matches_reject"),
                                   ("LimitsSessPL", "MC_LimitsSessPL_mut.cfg", "sess_model_pipeline_off_by_one")):
                 ok, _ = mc(ctx, mod, cfg, timeout=600, expect_ok=False)
                 ctx.extra[key] = "not detected by the bound (model)" if ok else "violates the bound the scripted peer checks (model)"
+        # the wire-level bound of the pipeline model: broken by a choke of a fast-extension peer that also re-queues the pending
+        # blocks (mutation), and - the code AS IT IS - by a reject message for a request that is not open (hostile seeder)
+        for cfg, key in (("MC_LimitsSessPL_requeue.cfg", "sess_model_pipeline_fast_choke_requeues"),
+                         ("MC_LimitsSessPL_hostile_asis.cfg", "sess_model_asis_pipeline_reject_not_outstanding")):
+            ok, _ = mc(ctx, "LimitsSessPL", cfg, timeout=600, expect_ok=False)
+            ctx.extra[key] = "not detected by the bound (model)" if ok else "more requests open on the wire than the limit (model): a block is requested while its first request is still open"
         ok, _ = mc(ctx, "LimitsSessWS", "MC_LimitsSessWS_asis.cfg", timeout=600, expect_ok=False)
         ctx.extra["sess_model_asis_webseed_counter"] = "no error" if ok else "webseedActiveDownloads leaves [0, cap]: a corrupt piece frees a slot although its download has already ended"
         outs = [f.result() for f in futs]
@@ -603,19 +610,32 @@ def check_sess(ctx, drv, launched=None):
             ctx.oblig("C17.uploadq.refused", sum(1 for e in t if e["op"] == "UQReject"))
         elif sub == "pipeline":
             ctx.oblig("C17.pipeline", sum(1 for e in t if e["op"] == "PLReq"))
-            out, mx, ch = set(), 0, True
+            # open requests on the wire = a bag (as in Trace_LimitsSess): situations the obligation was evaluated in
+            out, mx, ch, midchoke, reopened, rejected = [], 0, True, 0, 0, set()
             for e in t:
                 if e["op"] == "PLUnchoke":
                     ch = False
                 elif e["op"] == "PLChoke":
-                    ch, out = True, set()
-                elif e["op"] == "PLReq" and not ch:
-                    out.add((e["p"], e["b"]))
+                    midchoke += 1 if out else 0
+                    ch = True
+                    if not c["fast"]:
+                        out = []
+                elif e["op"] == "PLReq" and not (ch and not c["fast"]):
+                    out.append((e["p"], e["b"]))
                     mx = max(mx, len(out))
+                    if (e["p"], e["b"]) in rejected and not ch:
+                        reopened += 1
                 elif e["op"] in ("PLPiece", "PLReject", "PLCancel"):
-                    out.discard((e["p"], e["b"]))
+                    if (e["p"], e["b"]) in out:
+                        out.remove((e["p"], e["b"]))
+                    if e["op"] == "PLReject":
+                        rejected.add((e["p"], e["b"]))
             lim = min(c["reqq"] if c["reqq"] > 0 else c["defout"], c["maxout"])
             ctx.oblig("C17.pipeline.atlimit", 1 if mx == lim else 0)
+            ctx.oblig("C17.pipeline.choke_with_open_requests", midchoke)
+            ctx.oblig("C17.pipeline.rejected_block_requested_again", reopened)
+            if c.get("rej") == "dup":
+                ctx.oblig("C17.pipeline.hostile_reject", sum(1 for e in t if e["op"] == "PLHostile"))
         elif sub == "ram":
             ctx.oblig("C17.ram", sum(1 for e in t if e["op"] in ("RamSnap", "RamStats", "RamRest")))
             ctx.oblig("C17.ram.contended", 1 if any(e["op"] == "RamStats" and e["pending"] > 0 for e in t) else 0)
@@ -659,7 +679,8 @@ REQUIRED = {"rm": ("C17.rm.limit", "C17.rm.balance", "C17.rm.handshake", "C17.rm
             "cache": ("C17.cache.limit", "C17.cache.balance", "C17.cache.value", "C17.cache.parallel", "C17.cache.smallcfg"),
             "addr": ("C17.addr.limit", "C17.addr.balance", "C17.addr.atcapacity"),
             "sem": ("C17.sem.limit", "C17.sem.len"),
-            "sess": ("C17.uploadq", "C17.uploadq.refused", "C17.pipeline", "C17.pipeline.atlimit", "C17.ram", "C17.ram.contended",
+            "sess": ("C17.uploadq", "C17.uploadq.refused", "C17.pipeline", "C17.pipeline.atlimit", "C17.pipeline.choke_with_open_requests",
+                     "C17.pipeline.rejected_block_requested_again", "C17.ram", "C17.ram.contended",
                      "C17.webseed.active", "C17.webseed.atcap", "C17.rate.down", "C17.rate.up", "C17.rate.ws", "C17.config")}
 
 def check_conn(ctx, drv):
@@ -694,5 +715,7 @@ def run(ctx):
             fn(ctx, drv)
         # vacuity guard: every core obligation of the sub-check must have been evaluated on real-code events
         for tag in REQUIRED.get(name, ()):
-            if ctx.obligation_counts.get(tag, 0) == 0:
+            # (a crash / violation found by the sub-check may be the very reason why an obligation was not reached: the
+            # verdict stands, the guard only speaks when nothing was found)
+            if ctx.obligation_counts.get(tag, 0) == 0 and not ctx.violations:
                 raise vlib.MachineryError("sub-check %s: obligation %s was never evaluated" % (name, tag))
